@@ -164,6 +164,86 @@ example :
       .ok ⟨[⟨[0x416, 0x44B], .macroSheet, .hidden⟩, ⟨[65, 233], .chartSheet, .veryHidden⟩], [], true⟩ := by
   decide
 
+/-! ## xlsb: `xl/workbook.bin` -/
+
+/-- **BrtBundleSh round trip.** For every visibility, tab id below 2^32, relationship id and sheet name of
+    fewer than 2^31 UTF-16 units each, with a relationship that resolves to a part in a known folder: the record
+    decodes to the declared name (UTF-16 decoded), visibility, the kind of the folder, and the part path. -/
+theorem bundlesh_roundtrip (rels : List (Text × String)) (s : XlsbSheet) (hs : s.ok rels) :
+    bundleSh rels (encodeBundleSh (xlsbVisCode s.vis) s.tabId s.relUnits s.nameUnits) = .ok (some (s.decoded rels)) :=
+  bundleSh_encode rels s hs
+
+/-- **xlsb: sheets in part order, whatever the framing.** `workbook.bin` is any sequence of BrtBundleSh records,
+    BrtWbProp records and records the loop does not interpret (any id below 2^14 other than the three it knows,
+    any payload — BrtBookView, BrtFileVersion, future records), each framed with any legal id width and length
+    width, then BrtEndBundleShs and one of the records that follow the defined names. `read_workbook` (after fix
+    C16-a) reports exactly the declared sheets in order, and bit 0 of the last BrtWbProp as the date system.
+    `pf` (the formula decoder, C14) is arbitrary. -/
+theorem sheets_in_order_xlsb (pf : Bytes → List Text → List (Text × Text) → Res Text) (rels : List (Text × String))
+    (recs : List WRec) (hall : ∀ r ∈ recs, r.ok rels) (ew : Bool) (el : Nat)
+    (t : Nat) (ht : isAfterNames t = true) (tw : Bool) (tl : Nat) (rest : Bytes) :
+    readWorkbookXlsb pf rels (encodeWorkbookBin recs ew el (Xlsb.frame t [] tw tl ++ rest)) =
+      .ok (⟨(declaredW recs).map (fun s => (s.decoded rels).1), [], flagW recs⟩,
+           (declaredW recs).map (fun s => (s.decoded rels).2)) := by
+  obtain ⟨fuel, hf⟩ := encodeWorkbookBin_fuel recs ew el (Xlsb.frame t [] tw tl ++ rest)
+  obtain ⟨ht1, ht2, ht3⟩ := afterNames_lt t ht
+  unfold readWorkbookXlsb readWorkbookXlsbWith
+  have h1 := loop1_encode rels recs hall ew el (Xlsb.frame t [] tw tl ++ rest) fuel
+  unfold xlsbLoop1 at h1
+  rw [hf, h1]
+  simp only
+  rw [xlsbLoop2With, readType_frame t ht1]
+  simp only [ht2, ht3, ht, if_false, if_true]
+  rw [foldl_applyW]
+  simp [flagW, List.map_map, Function.comp_def]
+
+/-- **xlsb: the date-system flag** is bit 0 of BrtWbProp -/
+theorem date1904_flag_xlsb (pf : Bytes → List Text → List (Text × Text) → Res Text) (rels : List (Text × String))
+    (recs : List WRec) (hall : ∀ r ∈ recs, r.ok rels) (ew : Bool) (el : Nat)
+    (t : Nat) (ht : isAfterNames t = true) (tw : Bool) (tl : Nat) (rest : Bytes) :
+    ∀ wb p, readWorkbookXlsb pf rels (encodeWorkbookBin recs ew el (Xlsb.frame t [] tw tl ++ rest)) = .ok (wb, p) →
+      wb.is1904 = flagW recs := by
+  intro wb p h
+  rw [sheets_in_order_xlsb pf rels recs hall ew el t ht tw tl rest] at h
+  cases h
+  rfl
+
+/-- satisfiable: BrtBeginBook, BrtWbProp with f1904, a BrtBookView whose window geometry holds the bytes `90 01`
+    and `9C 01` (the pinned reader lost every sheet on it, finding C16-a), two sheets (hidden chart sheet,
+    very hidden work sheet) under mixed framings, BrtEndBundleShs, BrtEndBook -/
+def bookViewPayload : Bytes :=
+  [0x9C, 0x01, 0, 0, 0, 0, 0, 0, 0x90, 0x01, 0, 0, 0x0C, 0x30, 0, 0, 0x58, 0x02, 0, 0, 0, 0, 0, 0, 0, 0, 0, 0, 0x78]
+
+def c16aRels : List (Text × String) := [([114, 73, 100, 49], "chartsheets/sheet1.bin"), ([114, 73, 100, 50], "worksheets/sheet2.bin")]
+
+def c16aBook : Bytes :=
+  encodeWorkbookBin
+    [.other 0x0083 [] false 0, .wbprop 1 false 0, .other 0x0087 [] false 0, .other 0x009E bookViewPayload true 3,
+     .other 0x0088 [] false 0, .other 0x008F [] false 0,
+     .sheet ⟨.hidden, 1, [114, 73, 100, 49], [0x416, 0xD83D, 0xDE00]⟩ false 0,
+     .sheet ⟨.veryHidden, 2, [114, 73, 100, 50], [65]⟩ true 4]
+    false 0 (Xlsb.frame 0x0084 [] false 0)
+
+set_option maxRecDepth 8000 in
+example :
+    readWorkbookXlsb (fun _ _ _ => .ok []) c16aRels c16aBook =
+      .ok (⟨[⟨[0x416, 0x1F600], .chartSheet, .hidden⟩, ⟨[65], .workSheet, .veryHidden⟩], [], true⟩,
+           ["xl/chartsheets/sheet1.bin".toList, "xl/worksheets/sheet2.bin".toList]) := by
+  decide
+
+set_option maxRecDepth 8000 in
+/-- finding C16-a as a checked statement: on the same part the pinned reader (payload bytes of unknown records
+    read as record ids) ends the sheet list at the bytes `90 01` inside BrtBookView and reports no sheet at all -/
+theorem c16a_witness :
+    readWorkbookXlsbPinned (fun _ _ _ => .ok []) c16aRels
+      (encodeWorkbookBin
+        [.other 0x0083 [] false 0, .wbprop 1 false 0, .other 0x0087 [] false 0,
+         .other 0x009E ([0, 0, 0, 0, 0, 0, 0, 0, 0x90, 0x01, 0, 0] ++ List.replicate 17 0) false 0,
+         .other 0x0088 [] false 0, .other 0x008F [] false 0,
+         .sheet ⟨.hidden, 1, [114, 73, 100, 49], [65]⟩ false 0]
+        false 0 (Xlsb.frame 0x0084 [] false 0)) = .ok (⟨[], [], true⟩, []) := by
+  decide
+
 /-! ## xlsx: `xl/workbook.xml` (event level; quick-xml trusted) -/
 
 /-- **xlsx: sheets, defined names and the date flag in document order.** For every element prefix (`q` with
